@@ -7,8 +7,8 @@ from vlib.gens import hx, dec, nat_pattern, PATTERNS, signed
 GROUP = "cfg"
 LEAN_PROPS = "Dashu.Props.C19"
 LEAN_AUDIT = "Dashu.Audit.C19"
-GEN_PROPS = ["Dashu.Props.C19Wire", "Dashu.Props.C19Arch", "Dashu.Props.C19NT", "Dashu.Props.C19Mod"]
-GEN_AUDIT = ["Dashu.Audit.C19Wire", "Dashu.Audit.C19Arch", "Dashu.Audit.C19NT", "Dashu.Audit.C19Mod"]
+GEN_PROPS = ["Dashu.Props.C19Wire", "Dashu.Props.C19Arch", "Dashu.Props.C19NT", "Dashu.Props.C19Mod", "Dashu.Props.C19ModInv"]
+GEN_AUDIT = ["Dashu.Audit.C19Wire", "Dashu.Audit.C19Arch", "Dashu.Audit.C19NT", "Dashu.Audit.C19Mod", "Dashu.Audit.C19ModInv"]
 USES_GEN = True
 JOBS = 12
 READY = True
@@ -30,6 +30,9 @@ REFINED = ["serde UBig/IBig binary (LE bytes, sign in the length parity) encode/
            "word-size independence of modular arithmetic (Props/C19Mod, link to C13 by import): the ConstDivisor rings two builds construct for one modulus "
            "(different kind / shift / raw values) give the same residue for reduce, + - *, neg, dbl, sqr, pow (every exponent); inv answers in one iff in the "
            "other; new(0) panics in both",
+           "VALUE of the modular inverse and quotient across word sizes (Props/C19ModInv, link to C13's inv_spec / div_spec + uniqueness of the solution "
+           "of x*c = t (mod m) below m for gcd(c, m) = 1): inv is None in both builds or Some with the same residue; a / b panics NonInvertible in both or "
+           "answers with the same residue",
            "architecture layer integer/src/arch/** REGENERATED (Tie A, Gen/ArchAdd.lean): add_with_carry / sub_with_borrow of generic/add.rs and of the "
            "x86 / x86_64 intrinsic files, the arch/*/mod.rs module tables, the Word types, the cfg_if selection chain; proved = the carry arithmetic of the "
            "word-level models for every W, intrinsic = generic at 32 / 64 bits, two W-bit steps = one 2W-bit step, tables consistent (Props/C19Arch); "
@@ -40,7 +43,7 @@ FRONTIER = ["std/no_std and debug/release independence: no model-level statement
             "(thorough) builds",
             "integer / float / rational kernels below the frontier of the properties that own them (linked by import: C01, C02, C07, C09, C12 theorems are "
             "composed, not re-proved; C12's hypothesis that the u64 table/Newton square root never overflows is inherited by the mirrored sqrt statement as "
-            "`PrimSqrtExact`; the VALUE of a modular inverse / quotient across word sizes (needs uniqueness of the inverse below m) and float / rational arithmetic (C03, C04) have no word-size corollary here yet); Repr::new normalisation and reduce2's trailing_zeros / shifts are used at their C05 / C09 contracts in the serde decoders",
+            "`PrimSqrtExact`; float / rational arithmetic (C03, C04) have no word-size corollary here yet; C13 is composed too since round 7, with the value of inv and / since round 8); Repr::new normalisation and reduce2's trailing_zeros / shifts are used at their C05 / C09 contracts in the serde decoders",
             "log2 estimators: the f32 steps around the no_std table and the std f32::log2 path are replicated with Lean's compiled Float32 "
             "(not in the kernel: no kernel-level model of IEEE binary32 log2 exists); every pair of bounds is decided exactly per call, and a property-level "
             "judge accepts other valid bounds",
@@ -82,7 +85,7 @@ ASSUMPTIONS = ["usize/isize are 64 bits on the host (force_bits changes Word, no
                "the x86 intrinsics _addcarry_uN / _subborrow_uN compute what the Intel SDM documents (ADC / SBB)"]
 LEVEL_TEXT = ("Machine-checked Lean 4 theorems that dashu's serialized forms are functions of the mathematical value only (no "
               "word size in their definition), decode to the value encoded, and that every decoder yields a canonical value or "
-              "an error for arbitrary byte/token streams; word-size independence of integer arithmetic, gcd / roots / ilog (C12) and modular arithmetic (C13) as corollaries of the "
+              "an error for arbitrary byte/token streams; word-size independence of integer arithmetic, gcd / roots / ilog (C12) and modular arithmetic (C13, including the value of inv and /) as corollaries of the "
               "for-all-W refinement theorems; word-level serde encoders / decoders of all six types proved equal to the W-free ones; the architecture layer "
               "(add_with_carry / sub_with_borrow, module tables, selection chain) regenerated from source and proved; an exhaustive kernel-checked table theorem for the no_std log2 estimator. The "
               "model is tied to /repo by running identical case files through harness binaries built in 3 (quick) / 8 "
